@@ -48,7 +48,7 @@ InvLowerCamel == Check("InvLowerCamel", LowerCamelLaw(g, o))
 InvValueLaws  == Check("InvValueLaws", ValueLaws(g, o))
 \* the readings differ only where the statement leaves a choice
 InvReadings   == Check("InvReadings",
-                   (~HasEmb(g) /\ ~HasNilMap(g)) => Acceptable(g, o) = {Convert(g, o, Rd0)})
+                   ~HasEmb(g) => Acceptable(g, o) = {Convert(g, o, Rd0)})
 
 -----------------------------------------------------------------------------
 \* M2 export
